@@ -883,6 +883,10 @@ class ListAttributeBase(AttributeBase):
 
         if not isinstance(self._value, list):
             self._value = []
+        if value is self._value:
+            # The caller fetched this very list, appended to it and stores it back: the new
+            # entries are already in place (extending the list with itself would double it)
+            return
         if isinstance(value, list):
             self._value.extend(value)
         else:
